@@ -151,7 +151,7 @@ theorem execEnter_hon {s : Shape} {w : World} {v : Val} (inv : PInv s w v) (st :
     · have := pctx_root c R'
       exact ⟨this.good, this.ok, this.nd, by simpa [World.set, World.get] using this.bytes,
         by simpa [World.set, World.get] using this.calm, ownsOwn_A _,
-        by simpa [World.set, World.get] using this.big, by simpa [World.set, World.get] using this.far⟩
+        ⟨by simpa [World.set, World.get] using this.far, by simpa [World.set, World.get] using this.big⟩⟩
     · simp only [PBuf.cur]
       rw [List.pairwise_append]
       refine ⟨inv.chain, by simp, ?_⟩
@@ -200,7 +200,7 @@ theorem execLeave_hon {s : Shape} {w : World} {v : Val} (inv : PInv s w v) :
     obtain ⟨t1, u1, M, a1, a2, a3⟩ := honPath_close _ q s v tc uc w.a.base _ Tc c.good hrc' hpc hTc
     refine ⟨v, ⟨?_, ?_, ⟨t1, u1, M, ?_, ?_, ?_⟩⟩, by simp⟩
     · exact ⟨c.good, c.ok, c.nd, by simpa [World.get] using c.bytes, by simpa [World.get] using c.calm, ownsOwn_A _,
-        by simpa [World.get] using c.big, by simpa [World.get] using c.far⟩
+        ⟨by simpa [World.get] using c.far, by simpa [World.get] using c.big⟩⟩
     · exact inv.chain.sublist (List.dropLast_sublist _)
     · simpa [PBuf.cur] using a1
     · simpa [PBuf.cur] using a2
@@ -219,7 +219,7 @@ theorem execReborrow_hon {s : Shape} {w : World} {v : Val} (inv : PInv s w v) :
   simp only [World.get, hchk, Bool.not_true, Bool.false_eq_true, if_false, hget, LineRes, World.set]
   refine ⟨v, ⟨?_, by simp, ⟨s, v, treeOf s v w.a.base, ?_, ?_, ?_⟩⟩, by simp⟩
   · exact ⟨c.good, c.ok, c.nd, by simpa [World.get] using c.bytes, by simpa [World.get] using c.calm, ownsOwn_A _,
-      by simpa [World.get] using c.big, by simpa [World.get] using c.far⟩
+      ⟨by simpa [World.get] using c.far, by simpa [World.get] using c.big⟩⟩
   · simp [PBuf.cur, resolve]
   · simp only [PBuf.cur, List.getLastD, List.getLast_singleton, HonPath]
   · simp only [PBuf.cur, List.getLastD, List.getLast_singleton, offsetOf, Nat.add_zero]; exact hon_treeOf s v _
